@@ -49,7 +49,7 @@ func invParity(v ssa.Value, param string) (int, bool) {
 }
 
 func checkC19(p *ana.Prog, r *ana.Result) {
-	r.Explain("C19 (structural necessary conditions) for adjustments.(*Pll).Do: who may step - the only SystemClock.Step call of package adjustments is in Pll.Do, reachable only on the arm mode == 1 through mdt > 2 s, weight > 3 and |offset| > 1 ms, its argument is the caller's offset through an even number of sign inversions, and that arm then records t0 and advances the mode; restart - every path from entry to the mode dispatch passes either epoch == clk.Epoch() or the reset mode <- 0 (with epoch <- clk.Epoch()), and mode 0 only records t0 and advances; slew bound - the first argument of the only Adjust call is Duration(p) where p is 0 on all arms except tracking, where it passes the two one-sided clamps against +-d*500e-6 with d = math.Ceil(dt); positive duration - Adjust is reachable only through d > 0 for the very d converted into its duration argument.")
+	r.Explain("C19 (structural necessary conditions) for adjustments.(*Pll).Do: who may step - the only SystemClock.Step call of package adjustments is in Pll.Do, reachable only on the arm mode == 1 through mdt > 2 s, weight > 3 and |offset| > 1 ms, its argument is the caller's offset through an even number of sign inversions, and that arm then records t0 and advances the mode; restart - every path from entry to the mode dispatch passes either epoch == clk.Epoch() or the reset mode <- 0 (with epoch <- clk.Epoch()), and mode 0 only records t0 and advances; slew bound - the first argument of the only Adjust call is Duration(p) where p is 0 on all arms except tracking, where it passes the two one-sided clamps against +-d*500e-6 with d = math.Ceil(dt); positive duration - Adjust is reachable only through d > 0 for the very d converted into its duration argument. The slew bound is decided on values: p as it reaches Adjust is followed through merges, min/max and the comparisons with +-d*500e-6 that dominate each incoming edge (two ifs, if/else-if, min/max, a limit kept in a variable are all the same to the rule).")
 	r.Undecided("finiteness of the integrator l.i and of the frequency argument, the gain schedule, monotonic-clock assumption (panic arms noted), the SystemClock implementation")
 	fn := mustFunc(p, r, "core/sync/adjustments", "(*Pll).Do")
 	if fn == nil {
@@ -170,6 +170,10 @@ func checkC19(p *ana.Prog, r *ana.Result) {
 		st, ok := in.(*ssa.Store)
 		if !ok || ana.AccessPath(st.Addr) != "l.mode" {
 			return false
+		}
+		// a later mode written as a constant (the step is taken in mode 1 only)
+		if k, isK := ana.ConstInt(st.Val); isK {
+			return k > 1
 		}
 		bo, ok := st.Val.(*ssa.BinOp)
 		if !ok || bo.Op != token.ADD || ana.AccessPath(bo.X) != "l.mode" {
@@ -354,7 +358,31 @@ func c19Adjust(p *ana.Prog, r *ana.Result, fn *ssa.Function, adj *ssa.Call) {
 		if dph != nil && dph.Block() == pph.Block() {
 			de = dph.Edges[i]
 		}
-		if de == nil || !(clampedBoth(e, de) || slewBounded(e, de, pph.Block().Preds[i], pph.Block())) {
+		// p and d may be merged pairwise more than once (a helper's result struct handed on)
+		var pairOK func(e, de ssa.Value, at, to *ssa.BasicBlock, depth int) bool
+		pairOK = func(e, de ssa.Value, at, to *ssa.BasicBlock, depth int) bool {
+			if f, isK := constFloatOf(e); isK && f == 0 {
+				return true
+			}
+			if de == nil || depth > 4 {
+				return false
+			}
+			if clampedBoth(e, de) || slewBounded(e, de, at, to) {
+				return true
+			}
+			ep, ok1 := e.(*ssa.Phi)
+			dp, ok2 := de.(*ssa.Phi)
+			if ok1 && ok2 && ep.Block() == dp.Block() {
+				for j := range ep.Edges {
+					if !pairOK(ep.Edges[j], dp.Edges[j], ep.Block().Preds[j], ep.Block(), depth+1) {
+						return false
+					}
+				}
+				return true
+			}
+			return false
+		}
+		if !pairOK(e, de, pph.Block().Preds[i], pph.Block(), 0) {
 			bad++
 			r.Violate("C19.adjust", fname, fmt.Sprintf("slew-bound:arm%d", i), posOf(p, adj), "on the tracking arm the slew p ("+ana.ValueString(e)+") is not clamped on both sides to +-d*500e-6 (d = math.Ceil(dt)) before it is handed to Adjust: more than 500 ppm of the elapsed time can be slewed per update")
 			continue
